@@ -635,6 +635,51 @@ pub fn selftest(depth: usize) -> String {
 pub fn longrun_ops(cfg: &Cfg, pattern: &str, n: usize) -> Vec<Op> {
     let mut ops = Vec::new();
     let s = cfg.kind == Kind::S && !cfg.autosync;
+    match pattern {
+        // more lookups than a read log holds without any write in between, then a hit
+        // whose idle-timer extension must survive maintenance (tti configured)
+        "readburst" => {
+            ops.push(Op::Ins(0, 1));
+            ops.push(Op::Ins(1, 1));
+            ops.push(Op::Sync);
+            ops.push(Op::Adv(1));
+            for i in 0..n {
+                ops.push(Op::Get((i % 3) as u8));
+            }
+            ops.push(Op::Adv(1));
+            ops.push(Op::Get(0));
+            ops.push(Op::Sync);
+            ops.push(Op::Adv(1));
+            ops.push(Op::Get(0));
+            ops.push(Op::Con(0));
+            ops.push(Op::Get(1));
+            ops.push(Op::Iter);
+            return ops.into_iter().filter(|o| s || !matches!(o, Op::Sync)).collect();
+        }
+        // more entries than one purge batch expire at the same reading
+        "massexpiry" => {
+            for i in 0..n {
+                ops.push(Op::Ins(i as u8, 1));
+                if s && i % 50 == 49 {
+                    ops.push(Op::Sync);
+                }
+            }
+            ops.push(Op::Sync);
+            ops.push(Op::Adv(1));
+            ops.push(Op::Ins(n as u8, 1));
+            ops.push(Op::Adv(1));
+            for k in [n - 1, n - 20, n / 2, 0, n] {
+                ops.push(Op::Get(k as u8));
+                ops.push(Op::Con(k as u8));
+            }
+            ops.push(Op::Iter);
+            ops.push(Op::Sync);
+            ops.push(Op::Iter);
+            ops.push(Op::Get((n - 2) as u8));
+            return ops.into_iter().filter(|o| s || !matches!(o, Op::Sync)).collect();
+        }
+        _ => {}
+    }
     for i in 0..n {
         let k = i as u8;
         let w = if cfg.weigher { 1 + (i % 3) as u8 } else { 1 };
@@ -662,7 +707,7 @@ pub fn longrun_ops(cfg: &Cfg, pattern: &str, n: usize) -> Vec<Op> {
 pub fn longrun(spec: &str, pattern: &str, n: usize) -> String {
     let t0 = Instant::now();
     let mut cfg = Cfg::parse(spec);
-    cfg.nkeys = n as u8;
+    cfg.nkeys = (n + 1).min(254) as u8;
     let hasher = make_hasher(cfg.hash);
     let ops = longrun_ops(&cfg, pattern, n);
     tracker().reset();
@@ -713,7 +758,7 @@ pub fn longrun_replay(w: &str) -> Vec<Violation> {
     println!("{out}");
     // re-run and print the violated clauses in the replay format
     let mut cfg = Cfg::parse(parts[1]);
-    cfg.nkeys = parts[3].parse::<usize>().unwrap() as u8;
+    cfg.nkeys = (parts[3].parse::<usize>().unwrap() + 1).min(254) as u8;
     let hasher = make_hasher(cfg.hash);
     let ops = longrun_ops(&cfg, parts[2], parts[3].parse().unwrap());
     tracker().reset();
